@@ -5,6 +5,6 @@ Extraction Language OCaml.
 Extraction "model.ml" anchor
   to_string to_string_n utf8_length from_string is_valid from_hex from_base64 from_base64_unrepaired
   from_int from_uint from_int64 from_uint64 to_int to_uint to_int64 to_uint64 to_int_chk to_uint_chk to_int64_chk to_uint64_chk strtol64_at strtoul64_at
-  c_view to_int_att to_uint_att to_int64_att to_uint64_att from_string_view is_valid_view
-  rfc3629 is_cp lead_len layout_valid utf8_first utf8_text upper_hex rfc4648_encode rfc4648_preimage
+  c_view to_int_att to_uint_att to_int64_att to_uint64_att from_string_view is_valid_view from_base64_view
+  rfc3629 is_cp lead_len starts_encoding lead_witness is_surrogate utf8_strict layout_valid utf8_first utf8_text upper_hex rfc4648_encode rfc4648_preimage
   ref_decimal ref_value in_range int_min int_max uint_max int64_min int64_max uint64_max.
